@@ -107,6 +107,11 @@ static const struct radiotap_align_size rtap_namespace_sizes[] = {
             .align = 1,
             .size = 1,
         },
+    [IEEE80211_RADIOTAP_XCHANNEL] =
+        {
+            .align = 4,
+            .size = 8,
+        },
     [IEEE80211_RADIOTAP_MCS] =
         {
             .align = 1,
